@@ -766,6 +766,8 @@ class Interp:
                     raise PyRaise('KeyError')
             return self.unflat_elem([z3.Select(obj.val, k)], obj.vkind)
         if isinstance(obj, SObj):
+            if '__getitem__' in obj.attrs:        # ghost container: indexing defined by the contract
+                return self.call(obj.attrs['__getitem__'], [idx], {})
             m = self.find_method_obj(obj, '__getitem__')
             if m is not None:
                 return self.call_function(m, [idx], {})
@@ -915,6 +917,9 @@ class Interp:
             obj.val = z3.Store(obj.val, k, self.flat_elem(val, obj.vkind)[0])
             return
         if isinstance(obj, SObj):
+            if '__setitem__' in obj.attrs:
+                self.call(obj.attrs['__setitem__'], [idx, val], {})
+                return
             m = self.find_method_obj(obj, '__setitem__')
             if m is not None:
                 self.call_function(m, [idx, val], {})
